@@ -251,6 +251,8 @@ def check_other_plots(case, bad):
             bad("isodensity", "no_contour_call", {}, sub)
         else:
             Xg, Yg, Z = captured["XYZ"]
+            if Xg.ndim == 1 and Yg.ndim == 1:     # matplotlib semantics for 1-D grid vectors: Z[i, j] is drawn at (X[j], Y[i])
+                Xg, Yg = np.meshgrid(Xg, Yg)
             pts = np.c_[Yg.ravel(), Xg.ravel()] if swap else np.c_[Xg.ravel(), Yg.ravel()]
             expZ = np.asarray(m.pdf(pts), dtype=float).reshape(Z.shape)
             if not np.array_equal(Z, expZ) and not np.allclose(Z, expZ, rtol=1e-13, atol=0):
